@@ -1,6 +1,7 @@
 """C15 - a misbehaving handshake peer gets an error, never completion, a crash or a hang (gmtls)."""
 ID = "C15"
 PROPS = "Props/C15.v"
+COQ_TIMEOUT = 5400   # Coq build of this property incl. rebuilt dependencies; generous: on a loaded machine a rebuild after an upstream edit took > 1500 s
 GEN = ["hstables"]      # suite tables, default suite lists, version/size constants, message/alert/ClientAuth numbers, the reads of every flight
 LEGS = [{"driver": "c15", "runner": ("hs", "Extract/ExtractHS.v", "Hs_model"), "timeout": 3000}]
 
